@@ -567,29 +567,28 @@ def s5Client (auth : Bool) (authMsg : Bytes) (cmd : UInt8) (enc : Bytes) (stream
 
 /-! ### ss2022/stream.go — `ShadowStreamConn.read`: payload chunks of an authenticated (but possibly hostile) peer -/
 
-/-- `(*ShadowStreamConn).readChunk(b)` (the framing; no capacity check of its own): `cap` = `cap(b)`;
-`openChunk` = AEAD open of one sealed chunk (in place). Returns the payload length and the rest of the stream. -/
-def streamReadChunk (cap : Nat) (openChunk : Bytes → Option Bytes) (s : Bytes) : R (Nat × Bytes) :=
-  if cap < 2 + Gen.C06.tagSize then .panic else do                       -- b[:2+tagSize]
-  let (ct, s) ← readFull s (2 + Gen.C06.tagSize)
-  match openChunk ct with
-  | Option.none => .err .aead
-  | some pt => do
-    let length ← be16 (pt.take 2 ++ ct.drop 2)                            -- Uint16 of the buffer decrypted in place
-    if length = 0 then .err .zeroLengthChunk else
-    if cap < length + Gen.C06.tagSize then .panic else do                 -- b[:length+tagSize]
-    let (ct2, s) ← readFull s (length + Gen.C06.tagSize)
-    match openChunk ct2 with
-    | Option.none => .err .aead
-    | some _ => pure (length, s)
-
-/-- `(*ShadowStreamConn).read(b)`: capacity guard (explicit `panic`), then the sticky read error (`sticky` = `c.readErr`,
-set by an earlier failed read: returned without touching the buffer or the stream), then `readChunk`. -/
+/-- `(*ShadowStreamConn).read(b)`: `cap` = `cap(b)`; `sticky` = `c.readErr` (recorded by an earlier read that failed in the
+middle of a chunk — through `failRead`, or by the first `ReadFull` when it had consumed something; it is returned before the
+buffer or the stream is touched); `openChunk` = AEAD open of one sealed chunk (in place).
+Returns the chunk's payload length and the rest of the stream. Which failures are recorded as sticky does not matter for
+panics: every failure is an `err` here. -/
 def streamRead (cap : Nat) (sticky : Option Err) (openChunk : Bytes → Option Bytes) (s : Bytes) : R (Nat × Bytes) :=
   if cap < Gen.C06.streamReadMinBufferSize then .panic else
   match sticky with
   | some e => .err e
-  | Option.none => streamReadChunk cap openChunk s
+  | Option.none =>
+    if cap < 2 + Gen.C06.tagSize then .panic else do                       -- b[:2+tagSize]
+    let (ct, s) ← readFull s (2 + Gen.C06.tagSize)
+    match openChunk ct with
+    | Option.none => .err .aead
+    | some pt => do
+      let length ← be16 (pt.take 2 ++ ct.drop 2)                            -- Uint16 of the buffer decrypted in place
+      if length = 0 then .err .zeroLengthChunk else
+      if cap < length + Gen.C06.tagSize then .panic else do                 -- b[:length+tagSize]
+      let (ct2, s) ← readFull s (length + Gen.C06.tagSize)
+      match openChunk ct2 with
+      | Option.none => .err .aead
+      | some _ => pure (length, s)
 
 /-! ### httpproxy/server.go — `hostHeaderToAddr`, `serverHandleBasicAuth` (own logic; `net.SplitHostPort`,
 `strconv.ParseUint`, `netip.ParseAddr` are parameters returning ok/err) -/
